@@ -236,8 +236,12 @@ func eProp(id string, runs []eRun, outside []string) *Property {
 		fn, full := strings.CutSuffix(fn, "@full")
 		fn, slow := strings.CutSuffix(fn, "@slow")
 		byRun := id != "C09" && id != "C10" // the crash families take their shape bounds from the tier
+		crossEvery := 0
+		if !byRun {
+			crossEvery = 10
+		}
 		p.Runs = append(p.Runs, Run{Dir: "engine", Pkg: "internal/execute/sm", Fn: fn, P: [2]int{r.pq, r.pt}, Ticks: ticks,
-			SwitchOn: []string{"yield:enter", "yield:exit"}, Needs: needs, Slow: slow, ThoroughOnly: tonly || full, Full: full, ShapesByRun: byRun})
+			SwitchOn: []string{"yield:enter", "yield:exit"}, Needs: needs, Slow: slow, ThoroughOnly: tonly || full, Full: full, ShapesByRun: byRun, CrossEvery: crossEvery})
 	}
 	return p
 }
@@ -251,8 +255,10 @@ func init() {
 	// C02/C04: "including when several plans run on one Workstream": two plans through execute.Plans.Start/Wait.
 	multi := Run{Dir: "c12", Pkg: "internal/execute", Fn: "VerifMulti", P: [2]int{1, 2}, Ticks: [2]int{1, 1}, SwitchOn: []string{"yield:enter", "yield:exit"},
 		Needs: []string{"Wait returned while the other plan was still Running", "actions of both plans in flight together", "one plan failed, the other completed", "two sequences of one block in flight"}}
-	properties["C02"].Runs = append(properties["C02"].Runs, multi)
-	properties["C04"].Runs = append(properties["C04"].Runs, multi)
+	multiSlow := multi
+	multiSlow.Slow, multiSlow.ThoroughOnly, multiSlow.P = true, true, [2]int{1, 1}
+	properties["C02"].Runs = append(properties["C02"].Runs, multi, multiSlow)
+	properties["C04"].Runs = append(properties["C04"].Runs, multi, multiSlow)
 	// C01: the context passed to Start may be cancelled by the caller at any time without affecting execution.
 	properties["C01"].Runs = append(properties["C01"].Runs,
 		Run{Dir: "c12", Pkg: "internal/execute", Fn: "VerifC01Cancel", P: [2]int{1, 2}, Ticks: [2]int{1, 1}, SwitchOn: []string{"yield:enter", "yield:exit", "yield:w"},
